@@ -319,6 +319,18 @@ func (t *Truth) UnscannableDirs() []string {
 	return out
 }
 
+// VendorSpecs returns the sorted set "path|priority|vendor|class" of the valid
+// files of a vendor, one per directory index that holds the file.
+func (t *Truth) VendorSpecs(v string) []string {
+	set := map[string]bool{}
+	for _, f := range t.Files {
+		if f.State == "valid" && f.Meta.Vendor == v {
+			set[fmt.Sprintf("%s|%d|%s|%s", f.Path, f.DirIdx, f.Meta.Vendor, f.Meta.Class)] = true
+		}
+	}
+	return keys(set)
+}
+
 // MustErr returns the paths of Spec files that must have an error entry.
 func (t *Truth) MustErr() map[string]bool {
 	out := map[string]bool{}
